@@ -119,6 +119,7 @@ func (c *Conversation) End() (toSend []ValidMessage, err error) {
 		toSend, _, err = c.createSerializedDataMessage(nil, messageFlagIgnoreUnreadable, []tlv{{tlvType: tlvTypeDisconnected}})
 	}
 	c.lastMessageStateChange = time.Time{}
+	c.ake.wipe(true)
 	c.ake = nil
 	c.msgState = plainText
 	defer c.signalSecurityEventIf(previousMsgState == encrypted, GoneInsecure)
@@ -126,6 +127,16 @@ func (c *Conversation) End() (toSend []ValidMessage, err error) {
 	c.keys.ourCurrentDHKeys.wipe()
 	c.keys.ourPreviousDHKeys.wipe()
 	wipeBigInt(c.keys.theirCurrentDHPubKey)
+	wipeBigInt(c.keys.theirPreviousDHPubKey)
+	c.keys.theirPreviousDHPubKey = nil
+	c.keys.ourKeyID = 0
+	c.keys.theirKeyID = 0
+	for i := range c.keys.oldMACKeys {
+		c.keys.oldMACKeys[i].wipe()
+	}
+	c.keys.oldMACKeys = nil
+	c.keys.counterHistory.wipe()
+	c.keys.macKeyHistory.wipe()
 	return
 }
 
